@@ -100,7 +100,7 @@ def tour(menu, family, K):
                     continue
                 if not b.exists(p):
                     missing.append(p)
-                elif not same_as_first(h, rel):
+                elif L.first[h][rel] and not same_as_first(h, rel):
                     failed.append(p)
             exp = cm.expected_records(b, "R", L.roots, ignored(), with_dirs=False)
             for h in exp:
@@ -130,13 +130,13 @@ def tour(menu, family, K):
             for e in rec.entries:
                 req("C02", truth(e.digest == cur[e.fmt]), "tour-record-digest-wrong", "%s %s %s" % (tag, p, e.fmt))
             failed = False
-            if first is None:
+            if renamed_now:
+                pass  # the generation that detects the rename: judged by C17's assertions only
+            elif first is None:
                 for e in rec.entries:
                     req("C04", e.action == "original", "tour-new-file-original", "%s %s %s: %s" % (tag, p, e.fmt, e.action))
                 req("C04", sorted(seen) == sorted(reqf), "tour-new-file-formats", "%s %s: %s requested %s" % (tag, p, seen, reqf))
                 L.first[h][rel] = {}
-            elif renamed_now:
-                pass  # the generation that detects the rename: judged by C17's assertions only
             else:
                 old_ok = False
                 for e in rec.entries:
@@ -209,6 +209,8 @@ def tour(menu, family, K):
                 for h, rel, p in list(L.recorded()):
                     if is_ignored(p) or b.exists(p):
                         continue
+                    if not L.first[h][rel]:
+                        continue
                     fm = sorted(L.first[h][rel])[0]
                     for q in b.walk_files(h):
                         if "ascmhl" in q.split("/") or L.owner(q) != h or ign(q, False):
@@ -216,10 +218,10 @@ def tour(menu, family, K):
                         if truth(b.H(fm, q) == L.first[h][rel][fm]) and q != p:
                             renames[(h, rel)] = cm.rel_to(q, h)
             for (h, rel), newrel in renames.items():
-                old = L.first[h].pop(rel)
-                merged = dict(L.first[h].get(newrel, {}))
-                merged.update(old)
-                L.first[h][newrel] = merged
+                # the tool keeps digests per path: under its new path the file is known in the formats recorded there (those of the
+                # generation that detects the rename, whose digests were just compared with the former record), not in the old ones
+                L.first[h].pop(rel)
+                L.first[h].setdefault(newrel, {})
                 L.renamed_ever = True
             # ---- records (C02 / C08 partition / C12 exclusion) and their entries (C04)
             if sf is None:
